@@ -22,7 +22,11 @@
              was given (cases 0, 1); for the reader-only cases there is nothing but correspondence.
    [agree] = the bytes are the UTF-8 of the model writer's characters, and every observation is what the model
              reader computes from the text of the file.
-   [known] = 2 when a cell holds a carriage return and the file is read the way the library opens it.
+   [known] = never: finding 2 (K-csv-carriage-return: a cell with a carriage return read through a text-mode open
+             without newline='') is repaired by commit aa3b8fc.  The model of the library's reader follows the open call
+             of CSVUnpacker.open as the source has it on this run (Csv.lib_reader, Gen/CsvOpenParams.v): on a tree
+             without the fix the observation still agrees with the model, but [good] fails on every table that holds a
+             carriage return - a VIOLATION with that table as the failing input.
    Answer 9 = malformed case (the bytes are not UTF-8). *)
 From Coq Require Import ZArith NArith List Bool Arith.
 Import ListNotations.
@@ -99,23 +103,20 @@ Definition judge_csv_table (c : sx) : sx :=
   | None => L [A 9; A 0; L []]
   | Some file =>
       let written := list_eqb N.eqb bytes (utf8 (Csv.csv_write d rows)) in
-      let m_lib := Csv.csv_reader d file in
+      let m_lib := Csv.lib_reader d file in
       let m_raw := Csv.csv_reader_raw d file in
       let a_lib := csvobs_eqb lib m_lib in
       let a_raw := csvobs_eqb raw m_raw in
       let in_dom := Csv.delim_ok d && Csv.table_ok_raw rows in
       let g_lib := negb in_dom || csvobs_eqb lib (rows, None) in
       let g_raw := negb in_dom || csvobs_eqb raw (rows, None) in
-      let cr := has (fun x => N.eqb x Csv.CR) rows in
-      (* the finding excuses only the library's reader; the newline='' reader must return the table *)
-      let known := if in_dom && cr && g_raw then Some 2 else None in
       let br := match rows with
                 | [] => 0
                 | _ => if negb (Csv.table_ok_raw rows) then 4
                        else if has Csv.is_nl rows then 3
                        else if existsb (existsb (Csv.needs_quotes d)) rows then 2 else 1
                 end in
-      verdict known (g_lib && g_raw) (written && a_lib && a_raw) br
+      verdict None (g_lib && g_raw) (written && a_lib && a_raw) br
               (L [of_bool written; of_bool a_lib; of_bool a_raw; of_bool g_lib; of_bool g_raw])
   end.
 
@@ -147,7 +148,7 @@ Definition judge_ndjson_table (c : sx) : sx :=
 Definition judge_csv_text (c : sx) : sx :=
   let d := as_N (nth_sx 1 c) in
   let file := as_Ns (nth_sx 2 c) in
-  let a_lib := csvobs_eqb (dec_csvobs (nth_sx 3 c)) (Csv.csv_reader d file) in
+  let a_lib := csvobs_eqb (dec_csvobs (nth_sx 3 c)) (Csv.lib_reader d file) in
   let a_raw := csvobs_eqb (dec_csvobs (nth_sx 4 c)) (Csv.csv_reader_raw d file) in
   let br := match file with [] => 10 | _ => if existsb (N.eqb Csv.QUOTE) file then 12 else 11 end in
   verdict None true (a_lib && a_raw) br (L [of_bool a_lib; of_bool a_raw]).
